@@ -151,12 +151,13 @@ theorem bracketVec_spec (g : Nat → K) (n : Nat) (hn : 2 ≤ n) (hg : StrictOn 
     exact not_lt.mp (h3 c (le_refl _) (by omega))
 
 /-- The kernel of every method reproduces univariate polynomials up to the method's degree. -/
-theorem kernel_rep (m : Method) (eps : K) (he : 0 ≤ eps) : KRep m.minPts m.degree (m.kernel eps) := by
+theorem kernel_rep (m : Method) (fix : Bool) (eps : K) (he : 0 ≤ eps) :
+    KRep m.minPts m.degree (m.kernel fix eps) := by
   cases m
   · exact slinear_rep
   · exact lagrange2_rep
   · exact lagrange3_rep
-  · exact akima_rep eps he
+  · exact akima_rep fix eps he
   · exact cubic_rep
 
 end OMV.C15
